@@ -110,6 +110,10 @@ func (v *PacketDslVisitorImpl) VisitPacket(ctx *gen.PacketContext) interface{} {
 			if option.Value().STRING() != nil {
 				value = strings.Trim(value, "\"")
 			}
+			if value == "'\\x00'" {
+				// the NUL pad character, as the padding attributes store it
+				value = "'\x00'"
+			}
 			// Store option in the map
 			v.BinModel.AddOption(name, value, option.GetStart().GetLine(), option.GetStart().GetTokenSource().GetCharPositionInLine())
 		}
